@@ -167,6 +167,15 @@ def _case(vals, acc):
         return
     if got is arg:
         acc.fail('argument-returned', {'argument': before_repr}, {'spec_repr': repr(spec), 'mask': mask})
+        return
+    try:
+        again = strutils.mask_dict_password(arg, mask)
+    except Exception as e:
+        again = ('raises', type(e).__name__)
+    if again != got or compare(again, want, arg):
+        acc.fail('second-call-differs', {'argument': before_repr, 'first': repr(got),
+                                         'second': repr(again)},
+                 {'spec_repr': repr(spec), 'mask': mask})
 
 
 def level1(keys, leaves, maxw, kinds):
